@@ -12,8 +12,6 @@ CLAIMED = {
          "Assumes WithExponentialBackoff's normalisation initial<=max (precondition). time.Now() unconstrained. Sequential reading of recordFault (it runs on the parent's turn).", "§5 C08"),
  "C22": ("RoundRobin.Next: no panic, returns a configured node, advances cyclically - proved in exact uint32/int64 bit-vector semantics for every counter value (including the wrap) and every pool size 1..2^32.",
          "Requires a non-empty pool (a caller obligation). Lock operations are no-ops (sequential reading of a lock-protected method).", "§5 C22"),
-}
-
  "C21": ("Round-robin routing: for every cursor value and pool size 1..2^32 the routed message goes to routees[cursor mod n], exactly one Tell is issued, no index panic, and the cursor advances cyclically (so the k-th message goes to routee (k-1) mod n, also across what used to be the uint32 wrap). Structural obligation: the cursor has a single writer.",
          "Fan-out ('every routee exactly once') and consistent-hash clauses are NOT covered by this check: fan-out Tells are issued from spawned goroutines (delivery is C02's business), the hash-ring lemma is not built. ctx.Tell is an assumed frame (it does not write router fields), backed by the single-writer structural obligation. rand.IntN assumed in [0,n).", "§5 C21"),
  "C47": ("Bucket window: representation invariant preserved, no index/div panic for any clock value (also backwards), advance clears exactly the buckets it passes (ring-indexed quantified invariant), hard reset, add increments exactly one counter and returns the window totals (recursive sum spec). State machine: record opens exactly when total>=minRequests and float64(fail)/float64(total)>=failureRate (IEEE semantics), closes exactly when probing succeeded; transitionTo arms openUntil only on a real transition to Open; tryAcquire rejects while open until the timeout and admits a probe only by taking a free semaphore slot (<= halfOpenMaxCalls).",
